@@ -1,8 +1,9 @@
 #!/usr/bin/env python3
 """mkseed.py <mNN> <Cxx> [Cyy…]: scratch worktree /tmp/mNN of /repo with TASK.md holding ONLY the text of the named properties."""
 import sys, json, subprocess, os
-HARD = "--hard" in sys.argv
-argv = [a for a in sys.argv if a != "--hard"]
+HARD = "--hard" in sys.argv or "--hard2" in sys.argv
+HARD2 = "--hard2" in sys.argv
+argv = [a for a in sys.argv if a not in ("--hard", "--hard2")]
 m, ids = argv[1], argv[2:]
 W = f"/tmp/{m}"
 subprocess.run(f"git -C /repo worktree add -q --detach {W} HEAD", shell=True, check=True)
@@ -18,7 +19,9 @@ t = ["# Task\n",
 "Code under `#[cfg(humphrey_verif)]` is test instrumentation: leave it alone and do not rely on it.\n",
 ] + ([
 "Assume the project is additionally guarded by a differential test harness that, for each property, generates small-exhaustive and random inputs (requests, byte splits, configurations, operation sequences, schedules) and compares the code with a reference model. Choose changes whose manifestation needs an input class such a harness is UNLIKELY to generate: a rare combination of two features, a size or count threshold well above 'small', a specific alignment or boundary, an unusual but legal configuration value, a second use of an object after a particular first use, a less common platform-independent error path. It must still be a realistic commit, and your demonstration must still be deterministic.\n",
-] if HARD else []) + [
+] if HARD else []) + ([
+"This time do NOT rely on a size or count threshold (long inputs, many items) to hide the change. Prefer semantic subtleties: the ORDER of two checks or two side effects, which of two errors wins, state carried from one call to the next on the same object, idempotence (doing something twice), defaults when an optional item is absent vs present-but-empty, the interaction of two optional features that are rarely enabled together, case / whitespace / Unicode subtleties, signedness and off-by-one at numeric boundaries of ordinary magnitude, behaviour at exactly-equal comparisons, and cleanup on early-return paths.\n",
+] if HARD2 else []) + [
 "For each change write, under `out/` in this directory (create it):",
 "* `out/patchK.diff` (K = 1, 2, …; `git diff` of ONLY that change against HEAD; then `git checkout -- .` before starting the next one),",
 "* `out/demoK/` — a self-contained demonstration: one integration test file `<name>.rs` for the affected crate plus `README.md` containing the exact command line `cargo test -p <crate> --test <name>` (add `--features tokio` inside that command if needed), where copying the file into `<crate-dir>/tests/` makes the test PASS on the unchanged code and FAIL with the patch applied. The test must be deterministic and finish within a minute, use only the crate's public API and the standard library, and bind only to 127.0.0.1 ports chosen by the OS (port 0) where it needs sockets,",
